@@ -26,7 +26,8 @@ CFG = {
             "trie.Database.Commit lock discipline": "fault injection on the real trie.Database (child process, watchdog) + theorem on the model of Commit",
             "core.SetHead": "modelled and recorded; outside the property's quantifier (informational counters only)"},
     "assumptions": ["LevelDB batch atomicity and write ordering (the property's premise); aquadb.MemDatabase has the same semantics for these",
-                    "trie.Database reference counting keeps the memory layer closed (a dirty node's children are dirty or on disk): assumed in the theorems as "
+                    "trie.Database reference counting (Dereference) keeps the memory layer closed (a dirty node's children are dirty or on disk); commits and failed flushes preserve it "
+                    "(theorem failed_flush_keeps_tries_whole, correspondence cases `triemem`); for garbage collection it is assumed in the import theorems as "
                     "the hypothesis `FlushOK`/`diskRefs present`, and checked on every observed batch",
                     "reimport_converges (archive): blocks valid; a td record holds parent's record + difficulty (C02 td_recurrence; the C04 store "
                     "records presence only); the re-import covers the universe parents-first. Pruning images with lost states: _partial; judged on the real code at every prefix",
@@ -40,7 +41,7 @@ CFG = {
 META = {
     "technique": "Lean 4 proof (crash-prefix discipline: LocalOK image => correct recovery; writers keep every prefix LocalOK; trie commit closed at every "
                  "prefix; Commit lock balance under write failures) tied to core/ and trie/ by recorded write logs, exhaustive prefix reopening and fault injection",
-    "text": "Theorems localOK_recovers, trace_discipline_sound, commit_children_first, closed_prefix, commit_lock_balanced, impl_trace_ok and reimport_converges (archive; pruning _partial) hold for all "
+    "text": "Theorems localOK_recovers, trace_discipline_sound, commit_children_first, closed_prefix, commit_lock_balanced, failed_flush_keeps_tries_whole, impl_trace_ok and reimport_converges (archive; pruning _partial) hold for all "
             "images / traces / dirty tries / failing writes / histories in the Lean model of the chain database, its recovery and its writers as written "
             "(prefix_* theorems document the two crash windows and the lock leak of the tree before the fix commits). Every run re-proves them, "
             "records the real write log of generated histories, checks that the writer model reproduces it event by event and that Model.recover equals the "
